@@ -25,7 +25,7 @@ pub fn def() -> PropDef {
     PropDef {
         id: "C16",
         level: "model_checking",
-        rule: "explicit-state search over a store holding 5 documents — three whose namespace ids are byte-order neighbours (..FE, ..FF, successor; populated through the raw-put hook with read-only capability) and two real-key documents — with events {write entry 1/2, delete prefix, register peer, set policy, open, close, remove, re-create, import the write capability (an upgrade for a document created read-only)} per document, from the empty and from a fully populated initial state; after every event every document's complete observable content is compared with a per-document reference, removal must be refused iff open, and content_hashes() must equal the hashes of all entries held; a family drives the document life cycle through the docs API of a real Engine (every history of <= 3, thorough 4, events over {write, delete prefix, set policy, open one more handle, close, drop_doc, import again}: a dropped document is not listed, cannot be opened, comes back empty with the default policy, the bystander document is untouched); a further family spawns a real Engine with a garbage-collection protect handler and, after every step of three scripts (0..N writes, prefix deletions, duplicate contents, removals; N = 140 quick / 600 thorough, crossing every channel capacity on the way), calls the collector's callback and requires the live set it receives to equal the hashes held, and once more after the docs engine was shut down (the collector must then be stopped, not handed a smaller set); one case per neighbour-id document: it holds 1102 entries by 13 authors, is removed and re-created between its byte-order neighbours; canonical state = rendering of the complete observable store content; non-trivial = histories containing a removal of a non-empty document",
+        rule: "explicit-state search over a store holding 5 documents — three whose namespace ids are byte-order neighbours (..FE, ..FF, successor; populated through the raw-put hook with read-only capability) and two real-key documents — with events {write entry 1/2, delete prefix, register peer, set policy, open, close, remove, re-create, import the write capability (an upgrade for a document created read-only)} per document, from the empty and from a fully populated initial state; after every event every document's complete observable content is compared with a per-document reference, removal must be refused iff open, and content_hashes() must equal the hashes of all entries held; a family drives the document life cycle through the docs API of a real Engine (every history of <= 3, thorough 4, events over {write, delete prefix, set policy, open one more handle, close, drop_doc, import again}: a dropped document is not listed, cannot be opened, comes back empty with the default policy, the bystander document is untouched); a further family spawns a real Engine with a garbage-collection protect handler and, after every step of three scripts (0..N writes, prefix deletions, duplicate contents, removals; N = 140 quick / 600 thorough, crossing every channel capacity on the way), calls the collector's callback and requires the live set it receives to equal the hashes held, and once more after the docs engine was shut down (the collector must then be stopped, not handed a smaller set), and once while the store actor is blocked for 6.5 s (thorough 22 s) by a slow subscriber (whenever the callback says continue, every held hash is protected); one case per neighbour-id document: it holds 1102 entries by 13 authors, is removed and re-created between its byte-order neighbours; canonical state = rendering of the complete observable store content; non-trivial = histories containing a removal of a non-empty document",
         assumptions: &["entries of the neighbouring-id documents carry arbitrary signatures (written below the validation layer), which the properties observed here never inspect"],
         bound: |t| match t {
             Tier::Quick => json!({"from_empty": "depth <= 3", "from_populated": "depth <= 4", "events": 43}),
@@ -691,6 +691,60 @@ fn gc_run(name: &str, script: &[GcStep], report: &mut Report, ordinal: u64) -> (
     (checks, largest)
 }
 
+/// The collector asks while the store actor cannot answer for `stall_ms`: it is blocked in an
+/// insert, waiting for a subscriber whose one-slot channel is read only later. Whenever the
+/// callback comes back with "continue", the set it filled must protect every hash held.
+fn gc_stalled(stall_ms: u64) -> Vec<(&'static str, Value, String)> {
+    set_clock(NOW);
+    let mut bad = vec![];
+    let res: anyhow::Result<()> = crate::sut::block_on(async {
+        let node = gc_node().await?;
+        let sync = node.engine.sync.clone();
+        let mut want: BTreeSet<[u8; 32]> = BTreeSet::new();
+        for i in 0..7u16 {
+            set_clock(NOW + i as u64);
+            sync.insert_local(ns_id(0), author_id(0), format!("k{i:04}").into_bytes().into(), gc_hash(i), 7).await?;
+            want.insert(*gc_hash(i).as_bytes());
+        }
+        let (tx, rx) = async_channel::bounded(1);
+        sync.subscribe(ns_id(0), tx).await?;
+        // the first insert fills the subscriber's channel, the second one blocks the actor
+        set_clock(NOW + 10);
+        sync.insert_local(ns_id(0), author_id(0), b"k0100".to_vec().into(), gc_hash(100), 7).await?;
+        want.insert(*gc_hash(100).as_bytes());
+        let s2 = sync.clone();
+        let blocked = tokio::task::spawn(async move {
+            set_clock(NOW + 11);
+            let _ = s2.insert_local(ns_id(0), author_id(0), b"k0101".to_vec().into(), gc_hash(101), 7).await;
+        });
+        tokio::time::sleep(std::time::Duration::from_millis(100)).await;
+        let reader = tokio::task::spawn(async move {
+            tokio::time::sleep(std::time::Duration::from_millis(stall_ms)).await;
+            while rx.recv().await.is_ok() {}
+        });
+        let mut live = std::collections::HashSet::new();
+        let asked = std::time::Instant::now();
+        let outcome = (node.cb)(&mut live).await;
+        let waited = asked.elapsed();
+        let live: BTreeSet<[u8; 32]> = live.into_iter().map(|h| *h.as_bytes()).collect();
+        if matches!(outcome, iroh_blobs::store::ProtectOutcome::Continue) && !want.is_subset(&live) {
+            bad.push((
+                "gc_protection_set_equals_hashes_held",
+                json!({"engine_path": true, "collector_told_to_continue": true, "actor_stalled": true, "missing": want.difference(&live).count()}),
+                format!("the store actor was blocked for {stall_ms} ms (slow subscriber) while the collector asked; after {waited:?} the collector was told to continue with {} protected hashes while the documents hold at least {} ({} of them unprotected)", live.len(), want.len(), want.difference(&live).count()),
+            ));
+        }
+        let _ = blocked.await;
+        reader.abort();
+        let _ = node.engine.shutdown().await;
+        Ok(())
+    });
+    if let Err(e) = res {
+        bad.push(("gc_protection_set_equals_hashes_held", json!({"engine_path": true, "error": true, "actor_stalled": true}), format!("stalled-actor scenario: {e:#}")));
+    }
+    bad
+}
+
 /// A big document between its byte-order neighbours: document `victim` (one of the three
 /// neighbour-id documents) holds 1100 entries by 11 authors (among them the all-zero and the
 /// all-0xFF author id); it is removed, looked at, re-created and looked at again.
@@ -763,6 +817,21 @@ fn big_removal(victim: usize) -> Vec<(&'static str, String)> {
 
 fn run(ctx: &Ctx, report: &mut Report) {
     crate::util::silence_panics();
+    if ctx.shard == 11 % ctx.of {
+        let stall_ms = if ctx.quick() { 6500 } else { 22000 };
+        report.evaluations += 1;
+        report.nontrivial += 1;
+        report.count("gc_callback_while_the_actor_is_stalled", 1);
+        let case = json!({"gc_stalled_ms": stall_ms});
+        match catch(|| gc_stalled(stall_ms)) {
+            Err(p) => report.violation("no_panic", json!({"gc_stalled": true}), case, format!("panic: {p}"), 0),
+            Ok(bad) => {
+                for (o, w, d) in bad {
+                    report.violation(o, w, case.clone(), d, 0);
+                }
+            }
+        }
+    }
     for victim in 0..3usize {
         if ctx.shard != (7 + victim as u64) % ctx.of {
             continue;
@@ -864,6 +933,18 @@ fn run(ctx: &Ctx, report: &mut Report) {
 }
 
 fn replay(case: &Value) -> anyhow::Result<(bool, String)> {
+    if let Some(ms) = case.get("gc_stalled_ms").and_then(|v| v.as_u64()) {
+        return match catch(|| gc_stalled(ms)) {
+            Err(p) => Ok((true, format!("panic: {p}"))),
+            Ok(bad) => {
+                let out: String = bad.iter().map(|(o, _, _)| format!("FAILED {o}\n")).collect();
+                for (_, _, d) in &bad {
+                    eprintln!("detail: {d}");
+                }
+                Ok((!bad.is_empty(), format!("collector asks while the store actor is stalled for {ms} ms\n{out}")))
+            }
+        };
+    }
     if let Some(v) = case.get("big_removal").and_then(|v| v.as_u64()) {
         return match catch(|| big_removal(v as usize)) {
             Err(p) => Ok((true, format!("panic: {p}"))),
